@@ -51,6 +51,10 @@ func c05str(r *rand.Rand, benign bool) string {
 	}
 	var b strings.Builder
 	for i := 0; i < n; i++ {
+		if !benign && r.Intn(14) == 0 {
+			b.WriteString(autoText(r, "a")) // a literal of the tree under test (XML-legal characters)
+			continue
+		}
 		b.WriteString(atoms[r.Intn(len(atoms))])
 	}
 	return b.String()
